@@ -421,6 +421,7 @@ func genLoop(seed uint64, n int, outp string) {
 func oracleLoop(in, outp string) {
 	out := wire.Create(outp)
 	defer out.Close()
+	defer dumpStats(outp)
 	s := newSUT()
 	l := &loopSys{sut: s}
 	verdict, open, idx := "", false, 0
@@ -443,7 +444,14 @@ func oracleLoop(in, outp string) {
 		if l.apply(f) == "crash" && verdict == "" {
 			verdict = fmt.Sprintf("FAIL never-crashes op=%d", idx)
 		}
+		if f[0] == "srecv" && len(f) > 2 && f[2] == "0" {
+			stat("op.undelivered-answer")
+		}
+		if f[0] == "other" {
+			stat("op.other-type-request")
+		}
 		if len(l.c2s) == 0 && len(l.s2c) == 0 && l.sentAny && !l.lastNack && verdict == "" {
+			stat("clause.quiescent-record-matches", "type."+l.ty)
 			url := typeURL[l.ty]
 			w := l.sut.proxy.WatchedResources[url]
 			ok := false
